@@ -38,6 +38,36 @@ mut('c17-arc-tol-1', ['C17'], 'src/section/hit_objects/slider/curve.rs', 'const 
 mut('c17-no-joint-dedupe', ['C17'], 'src/section/hit_objects/slider/curve.rs', '                if skip_first {', '                if false && skip_first {')
 mut('c17-catmull-v4-extrap', ['C17'], 'src/section/hit_objects/slider/curve.rs', 'let v4 = points.get(i + 1).copied().unwrap_or_else(|| v3 * 2.0 - v2);', 'let v4 = points.get(i + 1).copied().unwrap_or(v3);')
 
+# ---- C18
+mut('c18-revert-F5', ['C18'], 'src/section/hit_objects/slider/curve.rs', """    path.clear();
+    *optimized_len = 0.0;
+
+    if points.is_empty() {
+        return;
+    }
+""", """    if points.is_empty() {
+        return;
+    }
+
+    path.clear();
+    *optimized_len = 0.0;
+""")
+mut('c18-no-clear-on-len-mut', ['C18'], 'src/section/hit_objects/slider/path.rs', """    pub fn expected_dist_mut(&mut self) -> &mut Option<f64> {
+        self.clear_curve();
+""", """    pub fn expected_dist_mut(&mut self) -> &mut Option<f64> {
+""")
+mut('c18-no-clear-on-points-mut', ['C18'], 'src/section/hit_objects/slider/path.rs', """    pub fn control_points_mut(&mut self) -> &mut Vec<PathControlPoint> {
+        self.clear_curve();
+""", """    pub fn control_points_mut(&mut self) -> &mut Vec<PathControlPoint> {
+""")
+
+# (equivalent mutants, not used: `len < self.left.len()` in extend_exact; dropping `*optimized_len = 0.0` in calculate_path)
+# (equivalent: returning p1 instead of p0 in the near-zero guard of interpolate_vertices)
+# ---- C19
+mut('c19-no-clamp', ['C19'], 'src/section/hit_objects/slider/curve.rs', "progress.clamp(0.0, 1.0) * dist(lengths)", "progress * dist(lengths)")
+mut('c19-d0-offbyone', ['C19'], 'src/section/hit_objects/slider/curve.rs', "    let p0 = path[i - 1];\n\n    let d0 = lengths[i - 1];", "    let p0 = path[i - 1];\n\n    let d0 = lengths[i.saturating_sub(2)];")
+mut('c19-idx-partition', ['C19'], 'src/section/hit_objects/slider/curve.rs', ".map_or_else(identity, identity)", ".map_or_else(|i| i.saturating_sub(1), identity)")
+
 def sh(cmd, **kw):
     return subprocess.run(cmd, shell=True, capture_output=True, text=True, **kw)
 
